@@ -400,15 +400,26 @@ def wait_summary(ctx, rule="R04.3"):
                         "CommandState::wait writes the state only after the child's wait() succeeded", f.loc(f.line), detail=repr(p),
                         fail="CommandState::wait overwrites the state (%s) on a path where the child was not successfully waited on: the "
                              "running child's handle is dropped unreaped and the next start spawns a second process" % e[2][:40])
-    # Ok(true) / Ok(false) placement by THIR shape: the `if let Running` then-branch ends in Ok(true), else Ok(false)
-    ifs = [n for n in thir.find(thir.root(f), "if") if isinstance(n["c"], dict) and n["c"].get("k") == "letx" and "Running" in thir.pattern_variants(n["c"]["p"])]
-    okshape = False
-    if len(ifs) == 1:
-        tv = thir.expr_value(ifs[0]["t"]["e"]) if ifs[0]["t"].get("k") == "block" else thir.expr_value(ifs[0]["t"])
-        evv = thir.expr_value(ifs[0]["e"]["e"]) if ifs[0].get("e") and ifs[0]["e"].get("k") == "block" else ("none",)
-        okshape = (tv[0] == "v" and tv[2] == "Ok" and list(tv[3].values())[0] == ("b", True)
-                   and evv[0] == "v" and evv[2] == "Ok" and list(evv[3].values())[0] == ("b", False))
-    ctx.require(okshape, rule, "wait-summary:ok-true-iff-finished", "wait() yields Ok(true) exactly on the branch that stored Finished", f.loc(f.line))
+    # Ok(true) / Ok(false) placement, path by path (`if let .. else`, `let .. else { return }` and `match` all give the same events):
+    # Ok(true) exactly on the paths that stored Finished, Ok(false) exactly on the not-running paths, anything else is the propagated error
+    wrong = []
+    for p in ps:
+        val = p.val or ""
+        stored = any(e[0] == "assign" and e[1].lstrip("^*") == "self" for e in p.ev)
+        running = [e for e in p.ev if e[0] in ("iflet", "arm") and "Running" in str(e[2])]
+        is_running = None
+        if running:
+            is_running = bool(running[0][3]) if running[0][0] == "iflet" else True
+        if "Ok{0: True}" in val:
+            if not stored:
+                wrong.append("Ok(true) without storing Finished")
+        elif "Ok{0: False}" in val:
+            if stored or is_running is not False:
+                wrong.append("Ok(false) on a path that is not `not running`")
+        elif "from_residual" not in val:
+            wrong.append("unmodelled result %s" % val[:40])
+    ctx.require(not wrong and len(ps) >= 3, rule, "wait-summary:ok-true-iff-finished", "wait() yields Ok(true) exactly on the paths that stored Finished and Ok(false) exactly when not running",
+                f.loc(f.line), detail=str(sorted(set(wrong))))
 
 
 def previous_run_safe(ctx, B, rule="R04.4"):
@@ -447,30 +458,42 @@ def reset_summary(ctx, rule="R09.3"):
         return
     m = ms[0]
     seen = set()
-    for arm in m["arms"]:
+    root = thir.root(f)
+    lets = [(st["p"].get("n"), thir.peel(st["i"])) for st in thir.walk(root) if isinstance(st, dict) and st.get("k") == "let" and st["p"].get("k") == "bind" and isinstance(st.get("i"), dict)]
+    paths = pathx.Enum().paths(root)
+    for q in paths:
+        arms = [e for e in q.ev if e[0] == "arm" and e[1].lstrip("^*") == "self"]
+        if len(arms) != 1:
+            ctx.incomplete(rule, "reset-path", "a path through reset() does not go through exactly one arm of the match over self", f.loc(f.line))
+            continue
+        arm = m["arms"][arms[0][3]]
         vs = thir.pattern_variants(arm["p"])
         if len(vs) != 1:
             ctx.incomplete(rule, "reset-arm:" + "|".join(vs), "arm covers several states", f.loc(arm["l"]))
             continue
         v = vs[0]
         seen.add(v)
-        assigns = [(pathx.desc(n["a"]), pathx.desc(n["b"])) for n in thir.find(arm["b"], "assign")]
-        val = thir.expr_value(arm["b"])
+        assigns = [(e[1].lstrip("^*"), e[2]) for e in q.ev if e[0] == "assign"]
         built = [n for n in thir.find(arm["b"], "adt") if n["adt"] == CSTATE]
         if v == "Pending":
-            ok = not assigns and val[0] == "v" and val[2] == "Pending"
+            val = thir.expr_value(arm["b"])
+            ok = not assigns and ((val[0] == "v" and val[2] == "Pending") or (q.val or "") == "Pending")
             ctx.require(ok, rule, "reset:Pending", "reset() of Pending returns Pending and changes nothing", f.loc(arm["l"]))
         else:
-            to_pending = ("self", "Pending") in assigns and len(assigns) == 1
-            copy = [thir.expr_value(b) for b in built if b["v"] == "Finished"]
+            to_pending = assigns == [("self", "Pending")]
+            copy = [b for b in built if b["v"] == "Finished"]
             okcopy = False
+            returns_copy = False
             if len(copy) == 1:
-                fs = copy[0][3]
+                fs = thir.expr_value(copy[0])[3]
                 if v == "Finished":
                     okcopy = all(fs.get(k) == ("var", k) for k in ("status", "started", "finished"))
                 else:
                     okcopy = fs.get("status", ("",))[0] == "v" and fs["status"][2] == "Continued" and fs.get("started") == ("var", "started")
-            returns_copy = val == ("var", "copy")
+                # what is returned is that value: bound to a local inside the arm, or the arm's value bound outside the match (`let copy = match self {..}`)
+                name = (q.val or "")
+                inits = [i_ for n_, i_ in lets if n_ == name]
+                returns_copy = any(i_ is copy[0] or (i_ is m and thir.peel(arm["b"]) is copy[0]) for i_ in inits)
             ctx.require(to_pending and okcopy and returns_copy, rule, "reset:" + v,
                         "reset() of %s stores Pending and returns the finished run" % v, f.loc(arm["l"]), detail=str(assigns),
                         fail="CommandState::reset on a %s state %s: the job keeps reporting a stale state (and previous_run is wrong) after a failed spawn"
@@ -586,6 +609,10 @@ def recv_gating(ctx, B, rule="R06.3"):
     for c in ctx.facts.children(f):
         ctx.saw_fn(c)
         tc += [(c, bi, t) for bi, t in c.calls() if t.callee.is_("Timer::to_control")]
+    # `.map(Timer::to_control)` (the function passed by path instead of through a closure) is the same site
+    bypath = [(bi, t) for bi, t in f.calls() if t.callee.is_("core::option::Option::map") and len(t.args) > 1 and t.args[1].const_fn() is not None
+              and t.args[1].const_fn().is_("Timer::to_control")]
+    tc += [(None, bi, t) for bi, t in bypath]
     ctx.floor(rule, "Timer::to_control sites", len(tc), 2)
     for fn, bi, t in tc:
         if fn is f:
@@ -608,12 +635,13 @@ def recv_gating(ctx, B, rule="R06.3"):
             ctx.require(len(sl) == 1 and cfg.dominates(sl[0][0], bi), rule, "expiry-select-sleeps", "the select waits on Timer::to_sleep of the armed timer", f.loc(t.line))
         else:
             # closure passed to Option::map on stop_timer.take(), guarded by is_past
-            maps = [(b2, t2) for b2, t2 in f.calls() if t2.callee.is_("core::option::Option::map") and
+            maps = [(bi, t)] if fn is None else \
+                   [(b2, t2) for b2, t2 in f.calls() if t2.callee.is_("core::option::Option::map") and
                     any(o.kind == "agg" and f.blocks[o.data[0]].stmts[o.data[1]].rv.agg_closure() == fn.def_ for o in origins(f, t2.args[1]))]
             ok = False
             if len(maps) == 1:
                 b2, t2 = maps[0]
-                takes = [x for x in origin_calls(f, t2.args[0]) if x[0].callee.is_("core::option::Option::take")]
+                takes = [x for x in origin_calls(f, t2.args[0], IDENTITY_CALLS + ("core::option::Option::as_ref", "core::option::Option::as_mut")) if x[0].callee.is_("core::option::Option::take")]
                 past = past_tests(f)
                 if takes and len(past) == 1:
                     sw2 = f.blocks[past[0][1].target].term
@@ -873,6 +901,14 @@ def task_exit(ctx, B, rule="R07.3"):
 
 
 def wake_protocol(ctx, rule="R07.4"):
+    pathx.INLINE = pathx.accessors(ctx.facts, SUP + "::flag::")       # `self.raised()` reads as the load it performs
+    try:
+        _wake_protocol(ctx, rule)
+    finally:
+        pathx.INLINE = {}
+
+
+def _wake_protocol(ctx, rule):
     FL = SUP + "::flag::Flag"
     f = ctx.anchor_fn(rule, FL + "::raise")
     cfg = CFG(f)
@@ -953,7 +989,18 @@ def wake_protocol(ctx, rule="R07.4"):
                   if any(t.callee.is_(r) for r in REMOVERS)})
     ctx.require(not rem, rule, "poll-keeps-other-waiters", "Flag::poll never removes a registered waker (any number of tasks may wait on one flag)", p.loc(p.line),
                 detail=str(rem), fail="Flag::poll removes registered wakers (%s): tasks waiting on the same flag are never woken by raise()" % rem)
-    loads = [(bi, t) for bi, t in p.calls() if t.callee.is_("core::sync::atomic::Atomic::load", "AtomicBool::load")]
+    LOAD = ("core::sync::atomic::Atomic::load", "AtomicBool::load")
+
+    def reads_flag(t):
+        if t.callee.is_(*LOAD):
+            return True
+        # an accessor of the flag module whose whole body is that load (Flag::raised)
+        g = ctx.facts.find_fn(strip_generics(t.callee.def_ or "")) if (t.callee.def_ or "").startswith(SUP + "::flag::") else None
+        if g is None or not g.blocks:
+            return False
+        cs = [t2 for _, t2 in g.calls() if not t2.callee.is_(*IDENTITY_CALLS)]
+        return len(cs) == 1 and cs[0].callee.is_(*LOAD)
+    loads = [(bi, t) for bi, t in p.calls() if reads_flag(t)]
     ctx.floor(rule, "waker registration in Flag::poll", len(regs), 1)
     ctx.floor(rule, "flag loads in Flag::poll", len(loads), 2)
     pend = []
@@ -979,7 +1026,7 @@ def wake_protocol(ctx, rule="R07.4"):
     for q in en.paths(thir.root(p)):
         last = None
         for e in q.ev:
-            if e[0] == "branch" and pathx.split_not(e[1])[0].startswith("Atomic::load(self.0.set"):
+            if e[0] == "branch" and pathx.split_not(e[1])[0].replace("^", "").startswith("Atomic::load(self.0.set"):
                 last = (e[2] != pathx.split_not(e[1])[1])
         res = (q.val or "")
         if q.out not in ("val", "ret"):
